@@ -31,7 +31,10 @@ PROFILE = {
 
 
 def generate(rng, i):
-    return gen_acct.generate(rng, PROFILE)
+    sc = gen_acct.generate(rng, PROFILE)
+    if i % 4 == 1:
+        sc["neighbour"] = i      # an unrelated account in the same process, moved in between this one's operations
+    return sc
 
 
 def execute(scenario):
